@@ -558,6 +558,45 @@ def len_leaves(t, acc):
     if k == "field" and len(t) > 3 and t[2] in OFFSET_FIELDS.get(t[3], ()) and peel(t[1])[0] in ("param", "upvar"):
         acc[0] += 1
         return True
+    # a captured value: judged where the closure is created
+    if k == "upvar" and _VAR_BODY[0] is not None and _LEN_FACTS[0] is not None and "{closure" in _VAR_BODY[0].name and not _IN_PARENT[0]:
+        cbody = _VAR_BODY[0]
+        f_ = _LEN_FACTS[0]
+        idx = None
+        for name, pl in cbody.rec.get("upvars", []):
+            if name == t[1]:
+                for pe in pl.get("p", []):
+                    if pe and pe[0] == "f":
+                        try:
+                            idx = int(pe[1])
+                        except (TypeError, ValueError):
+                            idx = None
+                        break
+        parent = cbody.name.rsplit("::{closure", 1)[0]
+        if idx is not None:
+            for pn in [parent] + [x for x in f_.bodies if x.startswith(parent + "::{closure") and x != cbody.name]:
+                pb = f_.body(pn)
+                if pb is None:
+                    continue
+                sy = K.sym_of(pb)
+                for blk in pb.blocks:
+                    for st in blk["stmts"]:
+                        if st["s"] == "assign" and st["rv"]["r"] == "agg" and st["rv"].get("def") == cbody.name and idx < len(st["rv"]["ops"]):
+                            cap = strip_deep(sy.operand(st["rv"]["ops"][idx]))
+                            sub = [0, 0]
+                            _IN_PARENT[0] = True
+                            old = _VAR_BODY[0]
+                            _VAR_BODY[0] = pb
+                            try:
+                                ok_ = len_leaves(cap, sub)
+                            finally:
+                                _VAR_BODY[0] = old
+                                _IN_PARENT[0] = False
+                            if ok_:
+                                acc[0] += sub[0]
+                                acc[1] += sub[1]
+                                return True
+                            return False
     # the element parameter of a closure handed to Option::map / map_or / and_then / is_some_and / filter: it is the
     # payload of the Option — a length when that is one
     if k == "param" and _VAR_BODY[0] is not None and _LEN_FACTS[0] is not None and "{closure" in _VAR_BODY[0].name:
@@ -1853,9 +1892,25 @@ def remote_guard_holds(f, fn, rx):
             t = blk["term"]
             if t["t"] != "switch" or blk.get("cleanup"):
                 continue
-            d = alpha(render(strip_deep(s.operand(t["discr"]))), b)
+            dt = strip_deep(s.operand(t["discr"]))
+            d = alpha(render(dt), b)
             if not re.search(rx, d):
-                continue
+                # the same test seen through `?` / map_err / as_ref …: `f(x).map_err(g)?` still branches on f(x)
+                from engine.rules import peel_variant_keeping
+                alt = None
+                if dt[0] == "discr":
+                    x = dt[1]
+                    for _ in range(4):
+                        x2 = peel_variant_keeping(x)
+                        if x2[0] == "call" and (x2[3] or {}).get("name") == "branch" and len(x2[2]) == 1 and \
+                                ((x2[3] or {}).get("trait") or "").endswith("ops::Try"):
+                            x2 = strip_deep(x2[2][0])
+                        if x2 is x or render(x2) == render(x):
+                            break
+                        x = x2
+                    alt = alpha("discr(%s)" % render(x), b)
+                if alt is None or not re.search(rx, alt):
+                    continue
             found = True
             if oc is None:
                 oc = outcome(b)
